@@ -231,16 +231,10 @@ func (g *gen) genStatement(typ types.Type, this, that string) error {
 				return err
 			}
 		}
-		if nullable(elmType) {
-			p.P("if %s == nil {", thisvalue)
-			p.In()
-			p.P("%s = nil", wrap(that)+"["+thatkey+"]")
-			p.Out()
-			p.P("}")
-		}
 		if !canCopy(elmType) {
 			// The copy of the value is built in a variable of its own and stored once it is complete:
 			// what sits in a map is not addressable, and under a key that is not equal to itself (NaN) it cannot be found again.
+			// A nil value is stored by the same assignment: storing it beforehand as well would store it twice under such a key.
 			thatvalue := prepend(that, "value")
 			p.P("var %s %s", thatvalue, g.TypeString(elmType))
 			if err := g.genField(elmType, thisvalue, thatvalue); err != nil {
@@ -257,14 +251,6 @@ func (g *gen) genStatement(typ types.Type, this, that string) error {
 		return fmt.Errorf("unsupported deepcopy underlying type: %s", g.TypeString(ttyp))
 	}
 	return fmt.Errorf("unsupported deepcopy type: %s", g.TypeString(typ))
-}
-
-func nullable(typ types.Type) bool {
-	switch typ.(type) {
-	case *types.Pointer, *types.Slice, *types.Map:
-		return true
-	}
-	return false
 }
 
 func not(s string) string {
